@@ -62,7 +62,8 @@ type world struct {
 	bal0   []sdkmath.Int
 	spent  []sdkmath.Int
 	staked common.Address
-	dead   bool // a monitor fired: the rest of this history is not meaningful
+	dead   bool     // a monitor fired: the rest of this history is not meaningful
+	seq    []string // op lines of this history including the one being executed (replay of a violation)
 }
 
 func newWorld(t *testing.T, out *hx.Out, nVal, nUsers int) *world {
@@ -327,7 +328,7 @@ func sameDigest(a, b snap) []string { return hx.DiffDump(a.digest, b.digest) }
 // monitors
 
 func (w *world) violate(desc string) {
-	w.out.Violate(desc)
+	w.out.ViolateWith(desc, append([]string{}, w.seq...))
 	w.dead = true
 }
 
@@ -392,6 +393,7 @@ func (w *world) user(i int) bool { return i >= 0 && i < len(w.accs) && w.sign[i]
 
 // apply executes one op line on the real app and returns the observation.
 func (w *world) apply(line string) string {
+	w.seq = append(w.seq, line)
 	f := strings.Fields(line)
 	ints := func(n int) []int {
 		r := make([]int, n)
@@ -932,6 +934,7 @@ func TestC11(t *testing.T) {
 	runSeq := func(nVal, nUsers int, lines []string, n int) {
 		w := newWorld(t, out, nVal, nUsers)
 		out.Reset(w.resetArgs()...)
+		w.seq = []string{"reset " + strings.Join(w.resetArgs(), " ")}
 		run := func(line string) string {
 			obs := w.apply(line)
 			out.Emit(line, obs)
